@@ -100,22 +100,37 @@ def check_propagate_empty(ctx):
     vi = [i for i, v in enumerate(lp['variants']) if v['name'] == 'Join'][0]
     fi_jt = field_idx(f, JOIN, 'join_type')
     n = 0
-    for jtv in enum_domain(f, JT):
+    HELPER = OPT + 'propagate_empty_relation::binary_plan_children_is_empty'
+    name_free = HELPER in f.fn_index
+    combos = [(a, b) for a in (0, 1) for b in (0, 1)] if name_free else [None]
+    for jtv, combo in [(j, c) for j in enum_domain(f, JT) for c in combos]:
         joinv = U(((('f', fi_jt), jtv),), 'join')
         plan = A(LP, vi, 'Join', ((0, joinv),))
-        ex = Explorer(f, inline_depth=2, force_domain={'left_empty': BOOLS, 'right_empty': BOOLS},
-                      observe=('left_empty', 'right_empty'), watch=(OPT + 'propagate_empty_relation::build_null_padded_projection',),
-                      inline_only=('datafusion_common::tree_node::Transformed',), budget=400000)
+        if name_free:
+            # the emptiness of the two inputs is supplied as the result of the helper that computes it (no local names involved)
+            res = A('core::result::Result', 0, 'Ok', ((0, T((I(combo[0]), I(combo[1])))),))
+            ex = Explorer(f, inline_depth=2, models={HELPER: (lambda ex_, a_, r=res: r)},
+                          watch=(OPT + 'propagate_empty_relation::build_null_padded_projection',),
+                          inline_only=('datafusion_common::tree_node::Transformed',), budget=400000)
+        else:
+            ex = Explorer(f, inline_depth=2, force_domain={'left_empty': BOOLS, 'right_empty': BOOLS},
+                          observe=('left_empty', 'right_empty'), watch=(OPT + 'propagate_empty_relation::build_null_padded_projection',),
+                          inline_only=('datafusion_common::tree_node::Transformed',), budget=400000)
         try:
             outs = ex.run(rec, [TOP, plan, TOP])
         except Undecidable as e:
             ctx.undecided(rule, 'rewrite[Join %s]' % jtv.name, str(e))
             continue
         for o in outs:
-            obs = dict(o.obs)
-            if 'left_empty' not in obs or not ground(obs['left_empty']) or not ground(obs['right_empty']):
-                continue  # error exit before the flags exist
-            le, re_ = bool(strip(obs['left_empty']).n), bool(strip(obs['right_empty']).n)
+            if name_free:
+                if ('call', HELPER) not in o.events:
+                    continue      # a path that never asked whether the inputs are empty
+                le, re_ = bool(combo[0]), bool(combo[1])
+            else:
+                obs = dict(o.obs)
+                if 'left_empty' not in obs or not ground(obs['left_empty']) or not ground(obs['right_empty']):
+                    continue  # error exit before the flags exist
+                le, re_ = bool(strip(obs['left_empty']).n), bool(strip(obs['right_empty']).n)
             inst = 'rewrite[Join %s,left_empty=%s,right_empty=%s]' % (jtv.name, le, re_)
             made_empty = ('agg', 'datafusion_expr::logical_plan::plan::EmptyRelation', 'EmptyRelation') in o.events
             padded = [e for e in o.events if e[0] == 'callargs']
